@@ -482,7 +482,8 @@ class C04(Prop):
                 text, spec = big_file(f, rng, crlf)
                 ops = []
                 for _ in range(len(spec) + 4):
-                    ops.append(rng.choice(['S0', 'S1', 'N', 'O', 'E0.2', 'E1.50', 'E0.400', 'I0', 'N']))
+                    ops.append(rng.choice(['S0', 'S1', 'N', 'O', 'E0.2', 'E1.50', 'E0.400', 'N', 'N']))
+                ops[7:7] = ['I0', 'I1']          # re-iteration of sets with hundreds of records: twice only (tens of MB of output otherwise)
                 # "all that is left": exact counts that no input can satisfy (the largest usize, 10^12)
                 j = rng.below(3)
                 ops[j:j] = [rng.choice(['E0.18446744073709551615', 'E1.1000000000000'])]
